@@ -941,7 +941,8 @@ def h_repairer_params(size: int, k: int, n: int, segsize: int, l1: int, l2: int)
     def get_segment_size():
         asked.append(1)
         return defer.succeed(segsize)
-    fn = NS(get_segment_size=get_segment_size, get_verify_cap=lambda: NS(needed_shares=k, total_shares=n),
+    fn = NS(get_segment_size=get_segment_size, get_verify_cap=lambda: NS(needed_shares=k, total_shares=n, size=size,
+                                                                                 storage_index=b"si", uri_extension_hash=b"u" * 32),
             get_size=lambda: size, read=read, get_storage_index=lambda: b"si")
     rp = repairer_mod.Repairer.__new__(repairer_mod.Repairer)
     rp._filenode, rp._storage_broker, rp._secret_holder, rp._monitor, rp._offset = fn, "sb", "sh", None, 0
